@@ -53,6 +53,13 @@ def compare(rec, m, selection, default=False, expand=None, visit=None, relations
                     rec.violation(quirks[q], f'{label} scope={"default" if default else selection}: {fmt(d, 300)}',
                                   {'path': d[0]})
                 return False
+    # not explained by any combination of known mechanisms: report what remains *after* allowing for all of them,
+    # so that the witness points at the new difference and not at a known one that happens to come first
+    if names:
+        e_all = View(m, selection, default, model_expand, quirks=names).observe(relations)
+        d_all = diff(e_all, real)
+        if d_all is not None:
+            d = d_all
     rec.violation('observation:' + norm_path(d[0]),
                   f'{label} scope={"default" if default else selection} expand={model_expand}: {fmt(d, 500)}',
                   {'path': d[0], 'expected': jsonable(d[1]), 'actual': jsonable(d[2])})
